@@ -14,4 +14,4 @@ Extraction "model.ml"
   replay run_log lstep crash_images recover init_log
   read_state state_rec sstep recover_snap latest
   init_world macro step settle run get_node lease_valid recent_contact
-  h_append_entries h_request_vote h_install_snapshot.
+  h_append_entries h_request_vote h_install_snapshot run_handler mk_node crash restart_after_crash fstate0 put.
